@@ -217,6 +217,8 @@ func c17Child(c *mon.Child) {
 		{"pointer-to-named", func(k numKind) reflect.Type { return reflect.PtrTo(k.named) }, `parser:"@Tok"`, "scalar", false},
 		{"slice", func(k numKind) reflect.Type { return reflect.SliceOf(k.typ) }, `@Tok+`, "slice", false},
 		{"slice-of-named", func(k numKind) reflect.Type { return reflect.SliceOf(k.named) }, `( @Tok )+`, "slice", false},
+		{"slice-single-capture", func(k numKind) reflect.Type { return reflect.SliceOf(k.typ) }, `@( Tok+ )`, "slice", false},
+		{"slice-single-capture-of-named", func(k numKind) reflect.Type { return reflect.SliceOf(k.named) }, `@( Tok Tok? Tok? )`, "slice", false},
 		{"joined", func(k numKind) reflect.Type { return k.typ }, `@( Minus? Tok )`, "joined", false},
 		{"joined-named-pointer", func(k numKind) reflect.Type { return reflect.PtrTo(k.named) }, `@( Minus Minus? Tok | Tok )`, "joined", false},
 		{"scalar-elide-option", func(k numKind) reflect.Type { return k.typ }, `@Tok`, "scalar", true},
@@ -395,7 +397,8 @@ func c17Child(c *mon.Child) {
 							}
 							// located at the first captured token
 							wantOff := len(lead)
-							if v.mode == "slice" {
+							if v.mode == "slice" && !strings.HasPrefix(v.name, "slice-single-capture") {
+								// one capture per element; a single capture of several tokens is located at its first token
 								wantOff = len(lead)
 								for i := 0; i < firstBad; i++ {
 									wantOff += len(captured[i]) + 1
@@ -545,7 +548,7 @@ func fmtExp(k numKind, e numExp) string {
 func init() {
 	Register(&mon.Spec{
 		ID:          "C17",
-		Rule:        "case = (numeric kind in int8..int64,int,uint8..uint64,uint,float32,float64; template in scalar, named type, pointer, pointer to named, slice, slice of named, joined '-' token(s) + number, Elide()-option lexer, enclosing alternative under lookahead 1 and 0; numeric text). Texts: the full boundary table of every width (2^(b-1), 2^b, +-1), hex/octal/binary forms of the limits, underscores, signs, exponents, hex floats, float32/float64 overflow and underflow limits, Inf/NaN words, junk, plus random numerals. Oracle: strconv.ParseInt/ParseUint/ParseFloat with the field's bit size: success => exactly that value (bitwise for floats); failure => a participle.Error whose message contains the strconv error and whose position is the first captured token, and no silent value; the enclosing-alternative template must fall through to the string alternative under lookahead 1 and fail under lookahead 0. Non-trivial: a captured text of >=3 characters or with a base prefix/underscore/exponent. Distinct by (kind, template, input).",
+		Rule:        "case = (numeric kind in int8..int64,int,uint8..uint64,uint,float32,float64; template in scalar, named type, pointer, pointer to named, slice, slice of named, joined '-' token(s) + number, Elide()-option lexer, enclosing alternative under lookahead 1 and 0; numeric text). Texts: the full boundary table of every width (2^(b-1), 2^b, +-1), hex/octal/binary forms of the limits, underscores, signs, exponents, hex floats, float32/float64 overflow and underflow limits, Inf/NaN words, junk, plus random numerals. Oracle: strconv.ParseInt/ParseUint/ParseFloat with the field's bit size: success => exactly that value (bitwise for floats); failure => a participle.Error whose message contains the strconv error and whose position is the first captured token, and no silent value; the enclosing-alternative template must fall through to the string alternative under lookahead 1 and fail under lookahead 0. Non-trivial: a captured text of >=3 characters or with a base prefix/underscore/exponent. Distinct by (kind, template, input). Slice templates also capture several tokens with one capture (@( Tok+ ), @( Tok Tok? Tok? )).",
 		Assumptions: []string{"[]*numeric fields are not claimed (the statement is ambiguous there)", "struct types are made with reflect.StructOf and built through the public Build as the only member of Union[any]"},
 		Batches:     func(t string) int { return 1 },
 		Floor:       func(t string) int { return pick(t, 3000, 20000) },
